@@ -123,7 +123,9 @@ def run_chunk(args: tuple) -> dict:
         done.append(i)
         res = runner.run_spec(spec)
         after_run()
-        if res['status'] == 'ok' and not prof.get('faults', True) and res['stmts'] != res['stmts_total']:
+        if res['status'] == 'ok' and not prof.get('faults', True) and res['stmts'] != res['stmts_total'] and not res['faults'].get('solver_fail'):
+            # (a real solver failure that the direct-lineax table predicted is not an injected fault: a
+            # captured throw=True with a solver that does not converge legitimately ends an actor early)
             # fault-free sub-campaigns: every generated statement must execute and be checked
             # (DESIGN.md 3.5); anything else means the interpreter lost part of a program
             res['status'] = 'harness'
